@@ -12,8 +12,9 @@ Model of the coordinate-system and rigid-body geometry of pyyeti/nastran/n2p.py 
                              cylindrical / spherical output systems; zero rows for scalar points
                              and q-set grids;
 * `rbmoveRow`, `Rb.mul`      `rbmove`;   `rbcoordsGrid`  `rbcoords` (3x3 inverse by adjugate);
-* `rbe3`                     `formrbe3` without `UM_List` (weighted least squares; the linear solve is
-                             a parameter — `gaussSolve` at `Float`);
+* `gaussSolve`               Gaussian elimination (the `Float` stand-in for `scipy.linalg.solve`);
+                             `formrbe3` itself is modelled in `Model/CoordRbe3.lean`, the id / reference
+                             bookkeeping of `build_coords` in `Model/CoordChain.lean`;
 * `replaceBasic`             `replace_basic_cs`;   `cardOf`  `mkcordcardinfo`.
 
 Core Lean only (no Mathlib).  Every definition is polymorphic over operation classes and a small
@@ -320,40 +321,8 @@ def resolveGrids (cs : List (CoordInfo α)) (es : List (Entry α)) : Option (Lis
         let co ← cs[cout]?
         pure (some ⟨q, locBasic ci a, co⟩)
 
-/-! ### formrbe3 (no UM_List) -/
-
-def dotL (a b : List α) : α := (List.zipWith (· * ·) a b).foldl (· + ·) 0
+/-- the six numbers of a row -/
 def row6 (r : V3 α × V3 α) : List α := r.1.toList ++ r.2.toList
-
-/-- `formrbe3`: `grids` = the dependent and independent grids (the partitioned uset), `dep` the
-dependent one, `ind` = (index into `grids`, dof 1..6, weight) per independent DOF in uset order.
-`solve A B` is the external kernel `scipy.linalg.solve`.  Result: one row per dependent DOF. -/
-def rbe3 (solve : List (List α) → List (List α) → List (List α))
-    (grids : List (GridR α)) (dep : GridR α) (depDofs : List Nat)
-    (ind : List (Nat × Nat × α)) : Option (List (List α)) := do
-  let n := grids.length
-  let Lc : α := (grids.foldl (fun acc g => acc + norm (g.p.sub dep.p)) 0) / TransOps.ofNat (n - 1)
-  let big : Bool := decide ((tiny12 : α) < Lc)
-  let wts := ind.map fun e =>
-    if 3 < e.2.1 && big then e.2.2 * (Lc * Lc) else e.2.2
-  -- rows of rbgeom_uset(uset, GRID_dep) at the independent DOF
-  let rb ← ind.mapM fun e => do
-    let g ← grids[e.1]?
-    let rws := if g.q then List.replicate 6 zeroRow else (gridRb g.co g.p dep.p).rows
-    let r ← rws[e.2.1 - 1]?
-    pure (row6 r)
-  let Tdep := ((if dep.q then List.replicate 6 zeroRow else (gridRb dep.co dep.p dep.p).rows)).map row6
-  -- rbw = rb.T * wtdof  (6 x m)
-  let cols := List.range 6
-  let rbw := cols.map fun j => (List.zipWith (fun r w => r.getD j 0 * w) rb wts)
-  let rbT := cols.map fun j => rb.map fun r => r.getD j 0
-  let A := rbw.map fun rw => rbT.map fun c => dotL rw c
-  let X := solve A rbw
-  let m := ind.length
-  let Xc := (List.range m).map fun k => X.map fun r => r.getD k 0
-  depDofs.mapM fun d => do
-    let t ← Tdep[d - 1]?
-    pure (Xc.map fun c => dotL t c)
 
 end trans
 
